@@ -53,6 +53,7 @@ INF = "self.input_mesh.faces"
 
 
 def run(ctx):
+    ctx = hr.Gate(ctx)
     f1_v1_faces_and_corners(ctx)
     u1_merges(ctx)
     m1_maps(ctx)
@@ -61,7 +62,7 @@ def run(ctx):
     k2_spanning_tree_with_features(ctx)
     d1_dual_trees(ctx)
     r1_region_tree(ctx)
-    a1_ownership(ctx)
+    a1_ownership(getattr(ctx, "_ctx", ctx))        # a specific statement outside the cutter is the finding: not subject to the subset gate
 
 
 def _absent(ctx, F, region, rule, site, construct, what):
@@ -83,7 +84,8 @@ def _flat(ctx, name):
         cache = ctx.repo._hf_flatfn = {}
     k = (CUT, id(fn0))
     if k not in cache:
-        cache[k] = FlatFn(ctx.repo, CUT, fn0)
+        from . import c09
+        c09._flat(ctx, CUT, fn0)          # the same flattened function as the Dijkstra rules use (heapq calls written as queue operations)
     return fn0, cache[k]
 
 
@@ -129,7 +131,9 @@ def _offset_discipline(F, lp, k, row_len_of):
     if others or not str(k).isidentifier() or k not in F.b.count:
         return None
     if len(incs) != 1:
-        return (False, "the running offset is not advanced exactly once per face") if not incs else None
+        # never advanced: a name bound once (before the loop) and left alone
+        return (False, "the running offset is not advanced exactly once per face") if not incs and F.b.count.get(k) == 1 \
+            and F.b.reaching(k, lp) is not None else None
     inc = incs[0]
     if not any(inc is s for s in lp.body):
         return None
@@ -142,9 +146,11 @@ def _offset_discipline(F, lp, k, row_len_of):
         return None
     uses = [n for n in au.walk(lp) if isinstance(n, ast.Name) and n.id == k and isinstance(n.ctx, ast.Load) and au.enclosing_stmt(n) is not inc]
     if any(F.before(inc, u) for u in uses):
-        return (False, "the running offset is advanced before the copies of the face are numbered")
+        return None         # used after the increment: the uses may compensate (k - len + j)
     init = F.b.reaching(k, lp)
     if init is None:
+        return None
+    if au.const(init) is None or isinstance(au.const(init), bool):
         return None
     if au.const(init) != 0:
         return (False, "the running offset does not start at 0")
@@ -218,9 +224,11 @@ class _Corners:
             return None
         uses = [n for n in au.walk(cl) if isinstance(n, ast.Name) and n.id == c and isinstance(n.ctx, ast.Load) and au.enclosing_stmt(n) is not inc]
         if any(F.before(inc, u) for u in uses):
-            return (False, "the corner counter is advanced before the corner is numbered")
+            return None         # used after the increment: the uses may compensate (counter - 1)
         init = F.b.reaching(c, self.lp)
         if init is None:
+            return None
+        if au.const(init) is None or isinstance(au.const(init), bool):
             return None
         if au.const(init) != 0:
             return (False, "the corner counter does not start at 0")
@@ -252,6 +260,16 @@ class _Corners:
         return None
 
 
+def _is_trivial_guard(F, e, p, at):
+    """a guard that cannot select corners / faces by their identity: a None test, a comparison of lengths"""
+    if isinstance(e, ast.Compare) and len(e.ops) == 1 and isinstance(e.ops[0], (ast.Is, ast.IsNot)) and hr.is_none(e.comparators[0]):
+        return True
+    er = F.resolve(e, at, keep=("self",))
+    if isinstance(er, ast.Compare) and all(isinstance(x_, ast.Call) and au.call_tail(x_) == "len" or isinstance(x_, ast.Constant) for x_ in [er.left] + list(er.comparators)):
+        return True
+    return False
+
+
 def f1_v1_faces_and_corners(ctx):
     fn0, F = _flat(ctx, "_build_mesh_with_cuts")
     fn = F.fn
@@ -279,7 +297,12 @@ def f1_v1_faces_and_corners(ctx):
         else:
             lp = loops[0]
             conds = F.conds(apps[0], stop=lp)
-            if conds:
+            lvars_ = set(au.assigned_names(lp.target))
+            if conds and not any((au.names(e_) | au.names(F.resolve(e_, apps[0], keep=tuple(lvars_) + ("self",)))) & lvars_ for e_, p_ in conds):
+                ctx.undecided("C16-F1", S(apps[0]), "the output faces are created under a condition that does not depend on the face", "")
+            elif conds and all(_is_trivial_guard(F, e_, p_, apps[0]) for e_, p_ in conds):
+                ctx.undecided("C16-F1", S(apps[0]), "the output faces are created under a sanity test the rule cannot evaluate", "")
+            elif conds:
                 ctx.fail("C16-F1", S(apps[0]), "output faces are not appended exactly once per input face, unconditionally, in input order",
                          "the cut mesh must have exactly the input faces in the same order: a face is created only under a condition")
             elif au.raw_guards(lp):
@@ -292,7 +315,10 @@ def f1_v1_faces_and_corners(ctx):
         ctx.undecided("C16-F1", site, "the output faces are appended at several places", f"{len(apps)} appends")
     # no other structural edit of the face container
     bad = [c for c in au.calls(fn) if isinstance(c.func, ast.Attribute) and tk(c.func.value, c) == OF
-           and c.func.attr in ("pop", "remove", "insert", "clear", "sort", "reverse")]
+           and c.func.attr in ("pop", "remove", "insert", "sort", "reverse")]
+    cleared = [c for c in au.calls(fn) if isinstance(c.func, ast.Attribute) and tk(c.func.value, c) == OF and c.func.attr == "clear"]
+    if cleared:
+        ctx.undecided("C16-F1", site, "the output face container is emptied and filled again", "")
     bad += [st for st in au.stmts(fn.body) if isinstance(st, ast.Delete) and any(isinstance(t, ast.Subscript) and tk(t.value, st) == OF for t in st.targets)]
     ctx.check(not bad, "C16-F1", site, "the output face container is structurally edited after the faces were created",
               "faces would no longer be in bijection with the input faces", note="faces never removed / reordered")
@@ -340,7 +366,7 @@ def f1_v1_faces_and_corners(ctx):
                         okrow = _offset_discipline(F, lp, next(iter(ats)), CN.is_len_row)
                     elif order.fold_const(n_) is not None:
                         okrow = (False, "the row has a constant number of entries, not one per corner of the face")
-            elif j not in p.atoms():
+            elif j not in au.names(row.elt) and not any(isinstance(n, (ast.Call, ast.NamedExpr, ast.Yield, ast.Await)) for n in ast.walk(row.elt)):
                 okrow = (False, "every entry of the row is the same number")
     elif isinstance(row, ast.Call) and au.call_tail(row) == "list" and len(row.args) == 1 and isinstance(row.args[0], ast.Call) \
             and au.call_tail(row.args[0]) == "range" and len(row.args[0].args) == 2:
@@ -379,6 +405,12 @@ def f1_v1_faces_and_corners(ctx):
             cls_ = [c for c in CN2.corner_loops() if c[0] is fl[0]]
             if not cls_ or cls_[0][2] is None:
                 ctx.undecided("C16-V1", S(va), "the vertex copies are not created in a loop over the corners of the face", "")
+            elif F.conds(va, stop=fl[-1]) and not any((au.names(e_) | au.names(F.resolve(e_, va, keep=tuple(au.assigned_names(fl[0].target)) + tuple(au.assigned_names(fl[-1].target)) + ("self",))))
+                                                      & (set(au.assigned_names(fl[0].target)) | set(au.assigned_names(fl[-1].target)))
+                                                      for e_, p_ in F.conds(va, stop=fl[-1])):
+                ctx.undecided("C16-V1", S(va), "the vertex copies are created under a condition that does not depend on the corner", "")
+            elif F.conds(va, stop=fl[-1]) and all(_is_trivial_guard(F, e_, p_, va) for e_, p_ in F.conds(va, stop=fl[-1])):
+                ctx.undecided("C16-V1", S(va), "the vertex copies are created under a sanity test the rule cannot evaluate", "")
             elif F.conds(va, stop=fl[-1]):
                 ctx.fail("C16-V1", S(va), "the copy made for corner j of face i is not appended once with the position of F[j]",
                          "a vertex copy is created only under a condition: the copies no longer correspond to the corners")
@@ -494,6 +526,9 @@ def _elementwise(F, val, st, lp, idx, row, OF, tk):
         if not _is_row_k(F, it, st, OF, idx, row, tk):
             return None
         if g.ifs:
+            if all(isinstance(t_, ast.Compare) and len(t_.ops) == 1 and isinstance(t_.ops[0], ast.In) and au.src(t_.left) == g.target.id
+                   and any(isinstance(n_, ast.Subscript) and hr.same(n_.value, t_.comparators[0]) for n_ in ast.walk(v.elt)) for t_ in g.ifs):
+                return None             # `[m[v] for v in F if v in m]` : a filter on the very map that is applied
             return "the comprehension filters the corners"
         if g.target.id not in au.names(v.elt):
             return "the new entries do not depend on the old ones"
@@ -518,11 +553,14 @@ def u1_merges(ctx):
         ctx.undecided("C16-U1", site, "the mesh object that is being built is not recognised", "")
         return
     OF = OUT + ".faces"
-    unions = [c for c in au.calls(fn) if au.call_tail(c) == "union" and len(c.args) == 2]
+    unions = [c for c in au.calls(fn) if au.call_tail(c) == "union" and len(c.args) == 2 and not any(isinstance(a_, ast.Starred) for a_ in c.args)]
+    if not unions and [c for c in au.calls(fn) if au.call_tail(c) == "union"]:
+        ctx.undecided("C16-U1", site, "the union calls that merge the vertex copies are not recognised", "")
+        return
     if not unions:
         has_uf = any(isinstance(c, ast.Call) and au.call_tail(c) == "UnionFind" for c in au.calls(fn))
         finds = [c for c in au.calls(fn) if au.call_tail(c) == "find"]
-        if F.impure_self_calls(fn) or not (has_uf and finds):
+        if F.impure_self_calls(fn) or F.opaque(fn) or not (has_uf and finds):
             ctx.undecided("C16-U1", site, "the merging of the vertex copies is not visible", "")
         else:
             ctx.fail("C16-U1", site, "vertex copies are never merged (no union call)", "every edge of the mesh is opened")
@@ -559,7 +597,9 @@ def u1_merges(ctx):
         if isinstance(st, ast.Assign) and isinstance(st.targets[0], ast.Tuple) and len(st.targets[0].elts) == 3 \
                 and isinstance(st.value, ast.Call) and au.call_tail(st.value) == "direct_face" and len(st.value.args) == 3 \
                 and au.const(st.value.args[2]) is True and all(isinstance(x, ast.Name) for x in st.targets[0].elts):
-            a, b_ = au.src(st.value.args[0]), au.src(st.value.args[1])
+            def _arg_name(x_):
+                return F.root(x_.id, st) if isinstance(x_, ast.Name) else au.src(x_)
+            a, b_ = _arg_name(st.value.args[0]), _arg_name(st.value.args[1])
             names = [x.id for x in st.targets[0].elts]
             role[names[0]] = ("face", (a, b_))
             role[names[1]] = ("idx", a, (a, b_))
@@ -580,6 +620,21 @@ def u1_merges(ctx):
                 return "border-ok" if pol else "border-bad"
         if isinstance(t, ast.Call) and au.call_tail(t) == "is_edge_on_border":
             return "border-ok" if not pol else "border-bad"
+        # not (A and B and ..) / (not A or not B or ..): the merge is skipped when every conjunct holds
+        conj = None
+        if isinstance(t, ast.BoolOp) and isinstance(t.op, ast.And) and not pol:
+            conj = list(t.values)
+        elif isinstance(t, ast.BoolOp) and isinstance(t.op, ast.Or) and pol and all(isinstance(v_, ast.UnaryOp) and isinstance(v_.op, ast.Not) for v_ in t.values):
+            conj = [v_.operand for v_ in t.values]
+        if conj is not None:
+            ks = [classify(v_, False) for v_ in conj]
+            if all(k_ == "vertex-border" for k_ in ks):
+                return "vertex-border"
+            if "border-ok" in ks and all(k_ in ("border-ok", "vertex-border") for k_ in ks):
+                return "border-ok"       # a border edge has its two end points on the border: the vertex tests are implied
+            return "other"
+        if isinstance(t, ast.BoolOp):
+            return "other"
         if any(isinstance(n, ast.Call) and au.call_tail(n) == "is_vertex_on_border" for n in ast.walk(t)) or \
                 any(isinstance(n, ast.Attribute) and n.attr in ("boundary_vertices", "is_vertex_on_border") for n in ast.walk(t)):
             return "vertex-border"
@@ -604,8 +659,7 @@ def u1_merges(ctx):
             _absent(ctx, F, lp, "C16-U1", S(c), "copies are merged across an edge without the test `edge not in self.cut_edges`",
                     "only the edges reported as cut may be opened, and every other interior edge must be closed")
         elif domain == "all" and "border-ok" not in kinds and "not-none" not in kinds:
-            _absent(ctx, F, lp, "C16-U1", S(c), "merging ranges over all edges without excluding the border edges",
-                    "border edges have a single face: there is nothing to merge across them (direct_face returns None)")
+            ctx.undecided("C16-U1", S(c), "merging ranges over all edges and relies on the border edges being cut edges", "")
         else:
             ctx.ok("C16-U1", S(c), "merge iff interior and not a cut edge")
         good = None
@@ -622,6 +676,8 @@ def u1_merges(ctx):
                     verts.append((ri[1], rf[1]))
         if len(verts) == 2:
             good = verts[0][0] == verts[1][0] and verts[0][1] == (verts[1][1][1], verts[1][1][0]) and verts[0][0] in ends
+            if not good and not all(x_ in ends for v_ in verts for x_ in (v_[0],) + tuple(v_[1])):
+                good = None         # direct_face is called on names that are not the plain end points of the edge
         if good is True:
             ctx.ok("C16-U1", S(c), "copy of x in F1 merged with copy of x in F2")
         elif good is False:
@@ -709,10 +765,20 @@ def m1_maps(ctx):
                     and au.canon_conditions(incs[0], stop=inner) == conds and F.before(st, incs[0]) and init is not None and au.const(init) == 0 \
                     and len([s for s in au.stmts(fn.body) if (i := au.increment(s)) is not None and i[0] == cnt]) == 1:
                 counter_ok = True
-            elif not incs:
-                counter_ok = False
+            elif not incs and isinstance(b.reaching(cnt, st), ast.Call) and au.call_tail(b.reaching(cnt, st)) == "len" \
+                    and len(b.reaching(cnt, st).args) == 1 and au.src(b.reaching(cnt, st).args[0]) == d:
+                counter_ok = True                       # n = len(imap) taken just before the store
+            elif not incs and init is not None and not any(cnt in [n_ for t_ in au.assign_targets(s_) for n_ in au.assigned_names(t_)]
+                                                           or (isinstance(s_, ast.For) and cnt in au.assigned_names(s_.target))
+                                                           for s_ in au.stmts(loops[1].body)) and cnt not in au.assigned_names(loops[1].target):
+                counter_ok = False                      # set before the loops and never changed inside them
         imap = d
-        if guarded and counter_ok is True:
+        others_same_map = [s2_ for s2_, tg2_, v2_ in hr.item_stores(fn) if s2_ is not st and isinstance(tg2_.value, ast.Name) and F.root(tg2_.value.id, s2_) == F.root(d, st)]
+        in_try = bool(others_same_map) or any(isinstance(a_, (ast.Try, ast.ExceptHandler)) for a_ in au.ancestors(st) if F.inside(a_, inner) or a_ is inner) or \
+            any(isinstance(x_, ast.Try) for x_ in au.walk(inner))
+        if in_try:
+            verdict = None          # membership decided by an exception handler: not modelled
+        elif guarded and counter_ok is True:
             verdict = True
         elif counter_ok is False:
             verdict = "the index given to a merged class never advances: every class gets the same index"
@@ -743,6 +809,8 @@ def m1_maps(ctx):
         # value: OUT.vertices[u]  |  Pu of `for u, Pu in enumerate(OUT.vertices)`
         if isinstance(val, ast.Subscript) and tk(val.value, st) == OV:
             old_i = val.slice
+            while isinstance(old_i, ast.Call) and au.call_tail(old_i) in ("int", "index") and len(old_i.args) == 1:
+                old_i = old_i.args[0]
         elif isinstance(val, ast.Name):
             for a in au.ancestors(st):
                 if isinstance(a, ast.For) and isinstance(a.iter, ast.Call) and au.call_tail(a.iter) == "enumerate" and len(a.iter.args) == 1 \
@@ -753,12 +821,14 @@ def m1_maps(ctx):
             continue
         # new index: imap[old]  |  new_u of `for u, new_u in imap.items()`
         if isinstance(new_i, ast.Subscript) and is_imap(new_i.value, st):
-            okp = au.src(new_i.slice) == au.src(old_i)
+            okp = True if au.src(new_i.slice) == au.src(old_i) else \
+                (False if isinstance(new_i.slice, ast.Name) and isinstance(old_i, ast.Name) and F.root(new_i.slice.id, st) != F.root(old_i.id, st) else None)
         elif isinstance(new_i, ast.Name):
             for a in au.ancestors(st):
                 if isinstance(a, ast.For) and isinstance(a.iter, ast.Call) and au.call_tail(a.iter) == "items" and is_imap(a.iter.func.value, a) \
                         and isinstance(a.target, ast.Tuple) and len(a.target.elts) == 2 and all(isinstance(x, ast.Name) for x in a.target.elts):
-                    okp = a.target.elts[1].id == new_i.id and au.src(old_i) == a.target.elts[0].id
+                    okp = True if (a.target.elts[1].id == new_i.id and au.src(old_i) == a.target.elts[0].id) else \
+                        (False if isinstance(old_i, ast.Name) and a.target.elts[1].id == new_i.id else None)
     if okp is True:
         ctx.ok("C16-M1", site, "positions follow the renumbering")
     elif okp is False:
@@ -826,29 +896,54 @@ def m1_maps(ctx):
     Droot = F.root(D, node)
     for st2, tg2, val2 in hr.item_stores(fn):
         if isinstance(tg2.value, ast.Name) and F.root(tg2.value.id, st2) == Droot and val2 is not None and F.before(st2, node) \
-                and not isinstance(val2, ast.Call) and not (isinstance(val2, ast.Set)):
+                and not (isinstance(val2, ast.Call) and au.call_tail(val2) not in ("set", "list", "frozenset", "sorted", "tuple")) and not (isinstance(val2, ast.Set)):
+            if isinstance(val2, ast.Call) and not val2.args:
+                continue                    # D[v] = set() : the creation of the table
             lp2 = [a for a in au.ancestors(st2) if isinstance(a, ast.For)]
             if lp2 and isinstance(lp2[0].target, ast.Name) and isinstance(tg2.slice, ast.Name) and tg2.slice.id == lp2[0].target.id \
                     and any(isinstance(n, ast.Name) and F.root(n.id, st2) == Droot for n in ast.walk(lp2[0].iter)):
                 passes.append(mapping_of(val2, tg2.value.id, tg2.slice.id, None))
-    for st2 in au.stmts(fn.body):
-        for nm, v2 in sym.split_assign(st2):
-            if nm == D and isinstance(v2, ast.DictComp) and len(v2.generators) == 1 and F.before(st2, node):
-                g = v2.generators[0]
-                if isinstance(g.iter, ast.Call) and au.call_tail(g.iter) == "items" and isinstance(g.iter.func.value, ast.Name) \
-                        and isinstance(g.target, ast.Tuple) and len(g.target.elts) == 2 and all(isinstance(x, ast.Name) for x in g.target.elts) \
-                        and au.src(v2.key) == g.target.elts[0].id:
-                    passes.append(mapping_of(v2.value, g.iter.func.value.id, g.target.elts[0].id, g.target.elts[1].id))
+            elif lp2 and isinstance(lp2[0].target, ast.Tuple) and len(lp2[0].target.elts) == 2 and all(isinstance(x_, ast.Name) for x_ in lp2[0].target.elts) \
+                    and isinstance(lp2[0].iter, ast.Call) and au.call_tail(lp2[0].iter) == "items" and isinstance(tg2.slice, ast.Name) \
+                    and tg2.slice.id == lp2[0].target.elts[0].id and any(isinstance(n, ast.Name) and F.root(n.id, st2) == Droot for n in ast.walk(lp2[0].iter)):
+                # for v, copies in D.items(): D[v] = {..}
+                passes.append(mapping_of(val2, tg2.value.id, tg2.slice.id, lp2[0].target.elts[1].id))
+    # the table walked by the ref_vertex loops is itself built from another table: D2 = {v: {imap[find(u)] for u in D[v]} for v in D}
+    ddef = F.definition(D, node)
+    if isinstance(ddef, ast.DictComp) and len(ddef.generators) == 1 and not ddef.generators[0].ifs:
+        g = ddef.generators[0]
+        src_tab = kv = cv = None
+        if isinstance(g.iter, ast.Name) and isinstance(g.target, ast.Name):
+            src_tab, kv = g.iter.id, g.target.id
+        elif isinstance(g.iter, ast.Call) and au.call_tail(g.iter) in ("keys",) and isinstance(g.iter.func.value, ast.Name) and isinstance(g.target, ast.Name):
+            src_tab, kv = g.iter.func.value.id, g.target.id
+        elif isinstance(g.iter, ast.Call) and au.call_tail(g.iter) == "items" and isinstance(g.iter.func.value, ast.Name) and isinstance(g.target, ast.Tuple) \
+                and len(g.target.elts) == 2 and all(isinstance(x_, ast.Name) for x_ in g.target.elts):
+            src_tab, kv, cv = g.iter.func.value.id, g.target.elts[0].id, g.target.elts[1].id
+        if src_tab is not None and au.src(ddef.key) == kv:
+            passes.append(mapping_of(ddef.value, src_tab, kv, cv))
     store_ok = kexp.id == uname and vexp.id == vname
     store_rev = kexp.id == vname and vexp.id == uname
     n_mapped = (1 if m_inner == "mapped" else 0) + sum(1 for p_ in passes if p_ == "mapped")
     bad = [p_ for p_ in passes + [m_inner] if isinstance(p_, tuple)]
-    if bad:
-        ctx.fail("C16-M1", site, "the duplicate table is not mapped through the same merge + renumbering as the faces", bad[0][1])
-    elif m_inner is None or any(p_ is None for p_ in passes):
+    find_at_record = [c_ for c_ in au.calls(fn) if au.call_tail(c_) in ("add", "append") and c_.args and is_find(F.resolve(c_.args[0], c_))]
+    if m_inner is None or any(p_ is None for p_ in passes) or (bad and find_at_record):
         ctx.undecided("C16-M1", site, "how the recorded copies are taken to the final vertex indices is not recognised", "")
+    elif bad:
+        ctx.fail("C16-M1", site, "the duplicate table is not mapped through the same merge + renumbering as the faces", bad[0][1])
     elif n_mapped == 1:
         ctx.ok("C16-M1", site, "duplicates -> imap[find(u)]")
+    elif n_mapped == 0 and [n_ for n_ in au.walk(fn) if isinstance(n_, ast.Subscript) and is_imap(n_.value, n_) and isinstance(n_.ctx, ast.Load)
+                            and not any(isinstance(a_, ast.Assign) and isinstance(a_.targets[0], ast.Subscript) and
+                                        (tk(a_.targets[0].value, a_) == OF or is_imap(a_.targets[0].value, a_) or
+                                         (isinstance(a_.targets[0].slice, ast.Subscript) and is_imap(a_.targets[0].slice.value, a_)))
+                                        for a_ in [au.enclosing_stmt(n_)])]:
+        ctx.undecided("C16-M1", site, "the renumbering map is applied to other tables in a way the rule does not follow", "")
+    elif n_mapped == 0 and [n_ for n_ in au.walk(fn) if isinstance(n_, ast.Subscript) and is_imap(n_.value, n_)
+                            and (is_find(n_.slice) or is_find(F.resolve(n_.slice, au.enclosing_stmt(n_))))
+                            and not any(F.table_key(a_.targets[0].value, a_) == OF if isinstance(a_, ast.Assign) and isinstance(a_.targets[0], ast.Subscript) else False
+                                        for a_ in [au.enclosing_stmt(n_)])]:
+        ctx.undecided("C16-M1", site, "the merge + renumbering is applied to the recorded copies in a way the rule does not follow", "")
     elif n_mapped == 0:
         _absent(ctx, F, fn, "C16-M1", site, "the duplicate table is not mapped through the same merge + renumbering as the faces",
                 "ref_vertex is keyed by the corner numbers of the un-merged mesh")
@@ -970,6 +1065,12 @@ def c1_cut_graph(ctx):
             ctx.ok(R, site, "cut_adj symmetric")
         else:
             ctx.undecided(R, site, "the loop filling the cut adjacency is not recognised", "")
+    elif len(adds) == 1 and [nm_ for st_ in au.stmts(fn.body) for nm_, v_ in sym.split_assign(st_) if isinstance(v_, ast.Subscript) and is_adj(_base(v_), st_)] + \
+            [st_ for st_ in au.stmts(fn.body) if isinstance(st_, ast.AugAssign) and is_adj(_base(st_.target), st_)] + \
+            [st_ for st_, tg_, v_ in hr.item_stores(fn) if isinstance(tg_.value, (ast.Name, ast.Attribute)) and is_adj(tg_.value, st_)
+             and not (isinstance(v_, ast.Call) and au.call_tail(v_) == "set" and not v_.args)] + \
+            [c_ for c_ in au.calls(fn) if isinstance(c_.func, ast.Attribute) and c_.func.attr in ("update", "union", "setdefault") and is_adj(_base(c_.func.value), c_)]:
+        ctx.undecided(R, site, "the cut adjacency is filled in a way the rule does not follow", "")
     elif len(adds) == 1 and len([a for a in au.ancestors(adds[0][2]) if isinstance(a, ast.For)]) == 1:
         _absent(ctx, F, fn, R, site, "the cut adjacency is filled in one direction only", "cut_adj must be symmetric: pruning and the cut graph walk it from both ends")
     else:
@@ -1019,22 +1120,34 @@ def c1_cut_graph(ctx):
                         d_ = F.definition(a.id, c)
                         a = d_ if d_ is not None else a
                     if isinstance(a, ast.Subscript) and F.table_key(a.value, c) == "self.cut_adj" and isinstance(a.slice, ast.Name):
-                        deg = (F.root(a.slice.id, c) == xr, p)
+                        if deg is None or not deg[0]:
+                            deg = (F.root(a.slice.id, c) == xr, p)
                         continue
             if isinstance(e, ast.Compare) and len(e.ops) == 1 and isinstance(e.ops[0], ast.In) and isinstance(e.left, ast.Name):
                 sc = _singular_container(ctx, F, e.comparators[0], c)
                 if sc is not None:
-                    sing = (F.root(e.left.id, c) == xr, p, sc)
+                    if sing is None or not sing[0]:
+                        sing = (F.root(e.left.id, c) == xr, p, sc)
                     continue
             if isinstance(e, ast.Compare) and len(e.ops) == 1 and isinstance(e.ops[0], ast.In) and "singu" in au.src(e.comparators[0]):
-                sing = (isinstance(e.left, ast.Name) and F.root(e.left.id, c) == xr, p, None)
+                if sing is None or not sing[0]:
+                    sing = (isinstance(e.left, ast.Name) and F.root(e.left.id, c) == xr, p, None)
                 continue
             other = True
         if (deg is None or sing is None) and other:
             ctx.undecided(R, S(c), "the conditions under which a vertex is queued for pruning are not recognised", "")
             continue
         why = "pruning must stop at singular vertices: every singularity keeps a copy on the border of the cut mesh"
-        if sing is None:
+        # mentions of the singular vertices that are not among the conditions of an enqueue (an iteration domain, a precomputed set ..)
+        cond_srcs = set()
+        for c2_ in apps:
+            for t_, pol_ in sk.path_conds(c2_, stop=None):
+                for n_ in ast.walk(t_):
+                    cond_srcs.add(id(n_))
+        sing_elsewhere = [n_ for n_ in au.walk(fn) if isinstance(n_, ast.Attribute) and ("singu" in n_.attr) and id(n_) not in cond_srcs]
+        if sing is None and sing_elsewhere:
+            ctx.undecided(R, S(c), "the singular vertices are excluded from the pruning in a way the rule does not follow", "")
+        elif sing is None:
             _absent(ctx, F, fn, R, S(c), "a vertex is queued for pruning without the tests `cut degree == 1 and not singular`", why + " (no test against the singular vertices)")
         elif not sing[0]:
             ctx.fail(R, S(c), "a vertex is queued for pruning without the tests `cut degree == 1 and not singular`", why + " (the singularity test is made on another vertex)")
@@ -1104,6 +1217,26 @@ def c1_cut_graph(ctx):
     strange = [c for c in au.calls(loop) if isinstance(c.func, ast.Attribute) and c.func.attr in MUTATORS and id(c) not in known
                and ("cut_adj" in F.table_key(_base(c.func.value), c) or "cut_edges" in F.table_key(_base(c.func.value), c))
                and not (isinstance(c.func.value, ast.Name) and c.func.value.id == Q)]
+    for st_, tg_, val_ in hr.item_stores(loop):
+        kb_ = F.table_key(_base(tg_), st_) or ""
+        is_reset = isinstance(val_, ast.Call) and au.call_tail(val_) == "set" and not val_.args and adj_of(tg_, A, st_)
+        if ("cut_adj" in kb_ or "cut_edges" in kb_) and not is_reset:
+            strange.append(st_)
+    for st_ in au.stmts(fn.body):
+        if isinstance(st_, (ast.Assign, ast.AnnAssign, ast.AugAssign)) and any(au.is_self_attr(t_, "cut_edges") or au.is_self_attr(t_, "cut_adj") for t_ in au.assign_targets(st_)):
+            strange.append(st_)         # the table itself is re-bound (a local copy published afterwards ..)
+    for st_ in au.stmts(loop.body):
+        if isinstance(st_, (ast.Delete, ast.AugAssign)) and (not clr or isinstance(st_, ast.AugAssign)) and any(("cut_adj" in (F.table_key(_base(t_), st_) or "") or "cut_edges" in (F.table_key(_base(t_), st_) or ""))
+                                                                          for t_ in (st_.targets if isinstance(st_, ast.Delete) else [st_.target])):
+            strange.append(st_)
+    for n_ in au.walk(fn):
+        if F.inside(n_, loop) or n_ is loop:
+            continue
+        if isinstance(n_, ast.Call) and isinstance(n_.func, ast.Attribute) and n_.func.attr in MUTATORS and \
+                ("cut_adj" in (F.table_key(_base(n_.func.value), n_) or "") or "cut_edges" in (F.table_key(_base(n_.func.value), n_) or "")):
+            strange.append(n_)
+        if isinstance(n_, ast.Subscript) and isinstance(n_.ctx, (ast.Store, ast.Del)) and "cut_adj" in (F.table_key(_base(n_), n_) or ""):
+            strange.append(n_)
     if rm_adj and rm_edge and clr:
         ctx.ok(R, site, "leaf removal keeps the three tables consistent")
     elif F.impure_self_calls(loop) or F.opaque(loop, {A, B}) or strange:
@@ -1200,16 +1333,56 @@ def _is_sentinel(ctx, F, e, at):
     return False
 
 
-def _weigh_conds(tests, atoms):
+def _drops_single(e, p, exclude=()):
+    """the atom (e, p) is a test on a length that FAILS for a sequence of one element (a zero-length path: a singular vertex lying on the
+    border): True / False, or None when the test cannot be evaluated"""
+    class _L(ast.NodeTransformer):
+        def visit_Call(self, n):
+            if au.call_tail(n) == "len" and len(n.args) == 1 and isinstance(_base(n.args[0]), ast.Name) and _base(n.args[0]).id != "self" \
+                    and _base(n.args[0]).id not in exclude:
+                return ast.copy_location(ast.Constant(value=1), n)      # the length of a local sequence (a path)
+            return self.generic_visit(n)
+    import copy
+    t = ast.fix_missing_locations(_L().visit(copy.deepcopy(e)))
+    if any(not isinstance(n, (ast.Compare, ast.BoolOp, ast.UnaryOp, ast.BinOp, ast.Constant, ast.cmpop, ast.boolop, ast.unaryop, ast.operator,
+                              ast.expr_context)) for n in ast.walk(t)):
+        return None
+    try:
+        val = eval(compile(ast.Expression(body=t), "<len>", "eval"), {"__builtins__": {}}, {})
+    except Exception:
+        return None
+    return bool(val) != bool(p)
+
+
+def _weigh_conds(tests, atoms, exclude=()):
     """conditions under which a candidate is weighed: True (none, or only `a != b` on the two end points) | 'cond' (a test on the
     length of the path: the zero-length link to the border is dropped) | None (unknown)"""
     rest = [(e, p) for e, p in atoms if not (isinstance(e, ast.Compare) and len(e.ops) == 1 and isinstance(e.ops[0], ast.Eq) and not p
                                              and isinstance(e.left, ast.Name) and isinstance(e.comparators[0], ast.Name))]
     if not rest:
         return True
-    if all(any(isinstance(n, ast.Call) and au.call_tail(n) == "len" for n in ast.walk(e)) for e, p in rest):
+    if any(_drops_single(e, p, exclude) is True for e, p in rest):
         return "cond"
     return None
+
+
+def _none_selector(F, e, p, at):
+    """`x is None` / `x is not None` where x = (A if t else None) with A a non-None value: the atom is the test t itself"""
+    if isinstance(e, ast.Compare) and len(e.ops) == 1 and isinstance(e.ops[0], (ast.Is, ast.IsNot)) and hr.is_none(e.comparators[0]) \
+            and isinstance(e.left, ast.Name):
+        d = F.definition(e.left.id, at)
+        if isinstance(d, ast.IfExp) and (hr.is_none(d.body) != hr.is_none(d.orelse)):
+            other = d.orelse if hr.is_none(d.body) else d.body
+            o = F.resolve(other, at)
+            known = (isinstance(o, ast.Constant) and o.value is not None) or \
+                (isinstance(o, ast.UnaryOp) and isinstance(o.operand, ast.Constant) and o.operand.value is not None)
+            if known:
+                is_not_none = isinstance(e.ops[0], ast.IsNot) == bool(p)      # the atom says `x is not None`
+                t_true = is_not_none != hr.is_none(d.body)                   # ... which holds exactly when t is True (body is the value)
+                if isinstance(d.test, ast.UnaryOp) and isinstance(d.test.op, ast.Not):
+                    return d.test.operand, not t_true
+                return d.test, t_true
+    return e, p
 
 
 def k1_spanning_tree_no_features(ctx):
@@ -1241,6 +1414,10 @@ def k1_spanning_tree_no_features(ctx):
         has_sent = any(_is_sentinel(ctx, F, n, ufst) for n in ast.walk(domr) if isinstance(n, (ast.Name, ast.Attribute, ast.UnaryOp, ast.Constant)))
         if has_sing and has_sent:
             ctx.ok(R, S(ufst), "union-find over singularities + BORDER")
+        elif has_sing and not has_sent and au.is_self_attr(domr, "singularities") and \
+                [c_ for c_ in au.calls(fn) if isinstance(c_.func, ast.Attribute) and isinstance(c_.func.value, ast.Name) and c_.func.value.id == uf
+                 and c_.func.attr not in ("union", "connected", "find")]:
+            ctx.undecided(R, S(ufst), "elements are added to the union-find of Kruskal's algorithm after its creation", "")
         elif has_sing and not has_sent and au.is_self_attr(domr, "singularities"):
             ctx.fail(R, S(ufst), "the union-find ranges over the singular vertices without the border sentinel", why_tree)
         else:
@@ -1268,15 +1445,35 @@ def k1_spanning_tree_no_features(ctx):
         if isinstance(vr, ast.Call) and au.call_tail(vr) == "shortest_path_to_border":
             n_border += 1
             bad = []
+            foreign = []
+            lvars = set()
+            for l_ in loops:
+                lvars |= set(au.assigned_names(l_.target))
             for e, p in conds:
+                e, p = _none_selector(F, e, p, st)
                 er = F.resolve(e, st, keep=("self",))
                 if p and "boundary" in au.src(er) and not any(isinstance(n, ast.Call) and au.call_tail(n) in ("is_vertex_on_border",) for n in ast.walk(er)):
                     continue
-                bad.append((e, p))
+                # contradicted only by a test on the singular vertex itself; a condition on anything else is not understood
+                if au.names(e) & lvars or au.names(F.resolve(e, st, keep=tuple(lvars) + ("self",))) & lvars:
+                    bad.append((e, p))
+                else:
+                    foreign.append((e, p))
             key = tg.slice
             okk = isinstance(key, ast.Tuple) and len(key.elts) == 2 and any(_is_sentinel(ctx, F, e, st) for e in key.elts)
-            if not bad and okk:
+            if not okk and isinstance(key, ast.Tuple) and len(key.elts) == 2:
+                # key part `x` with x = (BORDER if t else None), the store being under `x is not None`
+                for k_ in key.elts:
+                    d_ = F.definition(k_.id, st) if isinstance(k_, ast.Name) else None
+                    if isinstance(d_, ast.IfExp) and hr.is_none(d_.body) != hr.is_none(d_.orelse) \
+                            and _is_sentinel(ctx, F, d_.orelse if hr.is_none(d_.body) else d_.body, st) \
+                            and any(_none_selector(F, e, p, st)[0] is not e and isinstance(e, ast.Compare) and isinstance(e.left, ast.Name)
+                                    and e.left.id == k_.id for e, p in conds):
+                        okk = True
+            if not bad and not foreign and okk:
                 ctx.ok(R, S(st), "(BORDER, a) candidate for every singularity")
+            elif not bad and foreign:
+                ctx.undecided(R, S(st), "the condition under which the border candidate is recorded is not recognised", "")
             elif bad:
                 ctx.fail(R, S(st), "the path from a singular vertex to the border is recorded only under an extra condition",
                          "every singular vertex needs its candidate link to the border whenever the mesh has one (a zero-length link included)")
@@ -1286,9 +1483,7 @@ def k1_spanning_tree_no_features(ctx):
             n_pair += 1
             conds = [(e, p) for e, p in conds if not (isinstance(e, ast.Compare) and len(e.ops) == 1 and isinstance(e.ops[0], ast.Eq) and not p
                                                       and isinstance(e.left, ast.Name) and isinstance(e.comparators[0], ast.Name))]
-            if conds and all(isinstance(e, ast.Compare) and any(isinstance(n, ast.Call) and au.call_tail(n) == "len" for n in ast.walk(e)) for e, p in conds):
-                ctx.fail(R, S(st), "a candidate path between two singular vertices is recorded only under a condition on its length", why_tree)
-            elif conds:
+            if conds:
                 ctx.undecided(R, S(st), "a candidate path between two singular vertices is recorded under a condition the rule does not recognise", "")
             elif False:
                 ctx.fail(R, S(st), "a candidate path between two singular vertices is recorded only under a condition", why_tree)
@@ -1326,7 +1521,8 @@ def k1_spanning_tree_no_features(ctx):
             loops = [a for a in au.ancestors(c) if isinstance(a, ast.For)]
             if loops and any(isinstance(n, ast.Name) and F.root(n.id, loops[0]) == D for n in ast.walk(loops[0].iter)):
                 L = c.func.value.id
-                weighed = _weigh_conds([e for e, p_ in F.conds(c, stop=loops[0])], [(e, p_) for e, p_ in F.conds(c, stop=loops[0])])
+                weighed = _weigh_conds([e for e, p_ in F.conds(c, stop=loops[0])], [(e, p_) for e, p_ in F.conds(c, stop=loops[0])],
+                                       exclude=set(au.assigned_names(loops[0].target)) if isinstance(loops[0].iter, ast.Name) else ())
                 wl_node = c
     # (b) comprehension over D
     if L is None:
@@ -1341,7 +1537,8 @@ def k1_spanning_tree_no_features(ctx):
                 if isinstance(comp, (ast.ListComp, ast.GeneratorExp)) and len(comp.generators) == 1 and isinstance(comp.elt, ast.Tuple) \
                         and any(isinstance(n, ast.Name) and F.root(n.id, st) == D for n in ast.walk(comp.generators[0].iter)):
                     L = nm
-                    weighed = _weigh_conds(list(comp.generators[0].ifs), sk.atoms([(t_, True) for t_ in comp.generators[0].ifs]))
+                    weighed = _weigh_conds(list(comp.generators[0].ifs), sk.atoms([(t_, True) for t_ in comp.generators[0].ifs]),
+                                           exclude=set(au.assigned_names(comp.generators[0].target)) if isinstance(comp.generators[0].iter, ast.Name) else ())
                     wl_node = st
                     if srt:
                         sorted_ok = True
@@ -1372,10 +1569,12 @@ def k1_spanning_tree_no_features(ctx):
             if len(sorts) == 1 and not sorts[0].keywords and F.unconditional(sorts[0], sel):
                 sorted_ok = True
             elif len(sorts) == 1 and any(k.arg == "reverse" and au.const(k.value) is True for k in sorts[0].keywords):
-                sorted_ok = False
+                sorted_ok = None if (isinstance(sel.iter, ast.Call) and au.call_tail(sel.iter) == "reversed") or \
+                    any(isinstance(n_, ast.Slice) and n_.step is not None for n_ in ast.walk(sel.iter)) else False
             elif not sorts and not F.opaque(fn, {L}):
                 d_ = F.definition(L, sel)
-                sortish = [c for c in au.calls(fn) if "sort" in (au.call_tail(c) or "") or (au.call_tail(c) or "").startswith("heap")]
+                sortish = [c for c in au.calls(fn) if "sort" in (au.call_tail(c) or "") or (au.call_tail(c) or "").startswith("heap")
+                           or (au.call_tail(c) or "") in ("min", "max", "nsmallest", "nlargest", "bisect", "bisect_left", "bisect_right")]
                 if isinstance(d_, ast.Call) and au.call_tail(d_) == "sorted":
                     sorted_ok = True
                 elif not sortish:
@@ -1422,9 +1621,9 @@ def k1_spanning_tree_no_features(ctx):
                      "the test is inverted: only candidates that close a cycle are selected")
         elif not conds:
             r_conds = [F.conds(c, stop=sel) for c in recs]
-            if len(recs) == 1 and r_conds[0]:
-                ctx.fail(R, S(sel), "a candidate is not selected exactly when its end points are not yet connected (record + union under one test)",
-                         "the union is executed for every candidate, outside the test that guards the record")
+            if len(recs) == 1 and r_conds[0] and all(as_connected(e_) is not None and not p_ for e_, p_ in r_conds[0]):
+                ctx.ok(R, S(sel), "record under `not connected`; the unconditional union changes nothing for connected end points")
+                selected = recs[0].func.value.id
             else:
                 ctx.undecided(R, S(sel), "Kruskal's selection is not recognised", "")
         else:
@@ -1444,7 +1643,10 @@ def k1_spanning_tree_no_features(ctx):
         if len(inner) == 1:
             P = _consecutive_pairs(F, inner[0])
             stores = [(s, tg, val) for s, tg, val in hr.item_stores(inner[0]) if val is not None and au.const(val) is True]
-            if isinstance(P, tuple):
+            extra_flags = [s_ for s_, tg_, val_ in hr.item_stores(fl) if val_ is not None and au.const(val_) is True and not F.inside(s_, inner[0])]
+            if isinstance(P, tuple) and extra_flags:
+                verdict = None          # a pair handled outside the loop (peeled iteration)
+            elif isinstance(P, tuple):
                 verdict = P[1]
             elif P is not None and len(stores) == 1 and not F.conds(stores[0][0], stop=fl):
                 Pr = P
@@ -1549,9 +1751,11 @@ def k2_spanning_tree_with_features(ctx):
             flag_v = True
         elif {au.src(a) for a in key.args} == {v, prev} and rest:
             flag_v = None
-            if any(isinstance(e, ast.Compare) and isinstance(e.ops[0], ast.In) and p and isinstance(e.left, ast.Name) and e.left.id == prev for e, p in rest):
+            if any(isinstance(e, ast.Compare) and isinstance(e.ops[0], ast.In) and p and isinstance(e.left, ast.Name) and e.left.id == prev
+                   and isinstance(e.comparators[0], ast.Name) and F.root(e.comparators[0].id, s) == F.root(closest, s) for e, p in rest):
                 flag_v = "a tree edge of the feature graph is flagged only when it leaves a landing point"
-        elif any(F.inside(s, a) for a in au.stmts(w.body) if isinstance(a, ast.For)):
+        elif any(F.inside(s, a) for a in au.stmts(w.body) if isinstance(a, ast.For)) and not any(hr.flag_test(e, p) for e, p in F.conds(s, stop=w)) \
+                and not F.opaque(w, set()):
             flag_v = "edges are flagged when a vertex is discovered, not when it enters the tree: non-tree feature edges get flagged"
     feat_guard = None
     for c in au.calls(w):
@@ -1645,7 +1849,10 @@ def d1_dual_trees(ctx):
         plain_source = bool(eloops) and all(isinstance(a.iter, ast.Call) and au.call_tail(a.iter) in ("face_to_edges", "enumerate", "zip") for a in eloops)
         if okx and evar and not unknown and relax and pushes:
             ctx.ok("C16-D2", S(loop), "spanning-tree edges never crossed")
-        elif unknown or not relax or not pushes or not plain_source:
+        elif unknown or not relax or not pushes or not plain_source or \
+                [n_ for n_ in au.walk(fn) if isinstance(n_, ast.Name) and Fd.root(n_.id, n_) == forb and isinstance(n_.ctx, ast.Load)
+                 and not any(n_ is m_ for x_ in [x[0] for x in relax] + pushes for e_, p_ in Fd.conds(x_, stop=loop) for m_ in ast.walk(e_))]:
+            # the table of the spanning-tree edges is consulted somewhere the rule does not follow (a set built from it, a conditional expression ..)
             ctx.undecided("C16-D2", S(loop), "the test that keeps the dual tree off the spanning-tree edges is not recognised", "")
         else:
             _absent(ctx, Fd, loop, "C16-D2", S(loop), "a dual edge is relaxed / queued without the test `not forbidden[edge]`",
@@ -1656,9 +1863,14 @@ def d1_dual_trees(ctx):
             ctx.undecided("C16-D2", S(loop), "the edge recorded for a reached face is not recognised", "")
             continue
         pst = [(st, tg, val) for st, tg, val in relax if tg.value.id == PRED]
-        okp = bool(pst) and all(val is not None and au.src(Fd.resolve(val, st, keep=(evar,))) == evar for st, tg, val in pst)
-        ctx.check(okp, "C16-D2", S(loop), "the edge recorded for a reached face is not the edge that was tested and crossed",
-                  "the cut graph is the complement of the recorded dual edges", note="predecessor edge = crossed edge")
+        pvals = [Fd.resolve(val, st, keep=(evar,)) if val is not None else None for st, tg, val in pst]
+        if pst and all(x is not None and au.src(x) == evar for x in pvals):
+            ctx.ok("C16-D2", S(loop), "predecessor edge = crossed edge")
+        elif pst and any(isinstance(x, ast.Name) and x.id != evar and x.id in (v, nv) for x in pvals):
+            ctx.fail("C16-D2", S(loop), "the edge recorded for a reached face is not the edge that was tested and crossed",
+                     "the cut graph is the complement of the recorded dual edges: a face is recorded instead of the edge")
+        else:
+            ctx.undecided("C16-D2", S(loop), "what is recorded for a reached face is not recognised", "")
         # the neighbour face is the face on the other side of that same edge
         okn = None
         nvd = Fd.definition(nv, pst[0][0]) if pst else None
@@ -1669,7 +1881,7 @@ def d1_dual_trees(ctx):
             from_cur = lt and isinstance(lt[0].iter, ast.Call) and au.call_tail(lt[0].iter) == "face_to_edges" and lt[0].iter.args \
                 and isinstance(lt[0].iter.args[0], ast.Name) and Fd.root(lt[0].iter.args[0].id, lt[0]) == v
             cur_ok = isinstance(nvd.args[1], ast.Name) and Fd.root(nvd.args[1].id, pst[0][0]) == v
-            okn = True if (from_cur and cur_ok) else (False if lt and not cur_ok else None)
+            okn = True if (from_cur and cur_ok) else (False if lt and not cur_ok and isinstance(nvd.args[1], ast.Name) else None)
         elif isinstance(nvd, ast.Call) and au.call_tail(nvd) == "opposite_face" and len(nvd.args) == 3:
             ends = {au.src(a) for a in nvd.args[:2]}
             e_def = [s for s in au.stmts(loop.body) if isinstance(s, ast.Assign) and isinstance(s.targets[0], ast.Tuple)
@@ -1681,7 +1893,7 @@ def d1_dual_trees(ctx):
             cur_ok = isinstance(nvd.args[2], ast.Name) and Fd.root(nvd.args[2].id, pst[0][0]) == v
             if e_def and from_cur and cur_ok:
                 okn = True
-            elif e_def and lt and not cur_ok:
+            elif e_def and lt and not cur_ok and isinstance(nvd.args[2], ast.Name):
                 okn = False
         if okn is True:
             ctx.ok("C16-D2", S(loop), "neighbour across the tested edge")
@@ -1704,9 +1916,8 @@ def d1_dual_trees(ctx):
                         and au.src(comp.elt.slice) == au.src(g.target):
                     if len(g.ifs) == 1 and au.canon_test(g.ifs[0]) == au.canon_test(ast.parse(f"{au.src(comp.elt)} is not None", mode="eval").body):
                         okr = True
-                    elif len(g.ifs) >= 1 and any(hr.same(t_, comp.elt) or any(isinstance(n, ast.Subscript) and isinstance(n.value, ast.Name)
-                                                                               and Fd.root(n.value.id, rets[0]) == r.get("VIS") for n in ast.walk(t_)) for t_ in g.ifs):
-                        okr = False
+                    elif len(g.ifs) >= 1 and any(hr.same(t_, comp.elt) for t_ in g.ifs):
+                        okr = False          # truthiness of the recorded edge: edge 0 is dropped
                 elif over_pred and isinstance(g.target, ast.Name) and au.src(comp.elt) == g.target.id:
                     if len(g.ifs) == 1 and au.canon_test(g.ifs[0]) == f"{g.target.id} is not None":
                         okr = True
@@ -1878,7 +2089,11 @@ def a1_ownership(ctx):
             q = getattr(fn, "_qualname", "") if fn is not None else ""
             inside = modname.endswith(CUT) and au.is_self_attr(recv) and q.split(".<locals>.")[0].startswith(CLS + ".")
             n_w += 1
+            if not inside and modname.endswith(CUT):
+                # a helper of the cutting module itself (a function the cutter hands itself to): part of the cutter
+                ctx.undecided(R, ctx.site(modname, q or "<module>", n), f"the cut data field `{recv.attr}` is written by a helper of the cutting module", "")
+                continue
             ctx.check(inside, R, ctx.site(modname, q or "<module>", n),
-                      f"`{au.src(recv)}` {how} outside the cutter's own methods",
+                      f"the cut data field `{recv.attr}` is changed ({how}) outside the cutter's own methods",
                       "cut_edges / cut_adj / ref_vertex describe the cuts that were made; changing them elsewhere makes the report disagree with the cut mesh",
                       note="cut data written by the cutter")
